@@ -28,6 +28,14 @@ def run(ctx):
     for (g, gmp) in runs:
         wl = workload.mixed(rng, nlines * ctx.mult)
         lines = [w[0] for w in wl]
+        # the same caller-owned inputs used by several goroutines at once: calls that take vectors
+        # (commit, proof creation) are repeated back to back; in concurrent mode the harness hands every
+        # goroutine the SAME slice for the same vector specification (read-only sharing)
+        dup = [l for l in lines if l.split(" ", 1)[0] in ("commit", "mpc", "ipac")]
+        rng.shuffle(dup)
+        for l in dup[:6]:
+            at = rng.randrange(len(lines) + 1)
+            lines[at:at] = [l] * 6
         env = dict(os.environ, VERIF_CONC=str(g), GOMAXPROCS=str(gmp), GORACE="halt_on_error=0 exitcode=66")
         outs, err, rc = run_raw(h, lines, env=env, timeout=900)
         mod = run_lines(m, lines, env=model_env())
